@@ -66,9 +66,44 @@ ROUND2 = {
  "C20": ("/tmp/out2-C20", ["C20"], "C20 draws regularization / vertical_depth for median_for_intervals filters",
          "median_for_intervals margins become max(filter_size, vertical_depth) with regularization", "median_for_intervals + regularization true + vertical_depth > filter_size"),
 }
+ROUND3 = {
+ "C01": ("/tmp/out3-C01", [], "NOT A BREAKING CHANGE ANY MORE: it only manifests on the history check(A), check(B) on one machine, where the unchanged code itself was wrong (the machine kept the steps of A); triaging it led to the repository fix a1b4bed and to the C01 hist2 shards. With a1b4bed the machine starts every check from an empty pipeline_cfg and the swapped merge is behaviour-neutral (demo exits 0 with the change). Before a1b4bed, C01 hist2 reports both the unchanged code and this change",
+         "check_pipeline_section merges the machine's pipeline_cfg first and the user's configuration over it (step order taken from the machine)", "a machine that already checked another pipeline whose step names come in another order"),
+ "C02": ("/tmp/out3-C02", ["C02"], "C02 multiband pairs now store the right image's bands in another order than the left one (selected by name)",
+         "sad/ssd take the right image's band index from the left image's band list", "multiband + sad/ssd + left/right images with the same band names in different orders"),
+ "C03": ("/tmp/out3-C03", ["C03"], "C03 synthetic volumes are handed over in four memory layouts (C order, the matching-cost step's transposed layout, Fortran order, a window of a larger buffer)",
+         "to_disp replaces NaN by +-inf through ravel(order='K'), a copy when the volume is not one dense block", "cost volume that is a strided view (cv.isel(...)) + pixels with some NaN costs"),
+ "C04": ("/tmp/out3-C04", ["C04"], "C04 draws per-pixel grids with non-integer bounds (kind 'float') together with subpix 2/4, one directed case per shard",
+         "mask_invalid_variable_disparity_range looks at the integer disparities only", "subpix 2/4 + per-pixel interval holding a sub-pixel sample but no integer"),
+ "C05": ("/tmp/out3-C05", ["C05"], "", "check_pipeline_section no longer goes through update_conf before validating: 'inf'/'-inf' strings reach the step checkers", "'inf' / '-inf' (or 'NaN' outside invalid_disparity) on a pipeline parameter, through check_pipeline_section / check_conf"),
+ "C06": ("/tmp/out3-C06", ["C06"], "", "quadratic refinement's flat-curve guard became alpha < 1e-15 (always true for similarity measures)", "quadratic refinement + max-type measure"),
+ "C07": ("/tmp/out3-C07", ["C07"], "", "cross-check converts NaN to inf on a view of the second map (the caller's dataset)", "invalid_disparity NaN + cross-checking; visible on the other map only"),
+ "C08": ("/tmp/out3-C08", ["C08", "C01", "C12"], "same mechanism as C01-1 (found again independently)", "cost_volume_confidence_run drops the cost volume returned by the right-image pass", "validation + at least two confidence indicators before the disparity step"),
+ "C09": ("/tmp/out3-C09", ["C09", "C14"], "C09 end-to-end pipelines now use intervals that exclude 0 (near and far, both signs), right masks, and directed small tiles with cross-checking and sgm / mc-cnn filling; filled pixels are counted",
+         "find_valid_neighbors bounds the scan by the distance to the farthest side (one step short towards index 0): a spurious 0.0 neighbour", "sgm filling + flagged pixel whose low-index side is all invalid and farthest + interval that excludes 0"),
+ "C10": ("/tmp/out3-C10", ["C10"], "C10 gained the 'large-area' invalid layout (one large invalid rectangle) and two directed multi-block cases with an invalid area larger than 100x100",
+         "bilateral filter skips a 50x50 sub-array whose centres are all invalid without advancing the column cursor", "bilateral + aligned 50x50 block of invalid centres + image wide enough for another block on its right"),
+ "C11": ("/tmp/out3-C11", ["C11"], "", "cbca crops the shifted right images with sizes taken from the cost volume (one column too many)", "window >= 3 + subpix >= 2 + fractional plane with non-negative integer part + region reaching the right edge"),
+ "C12": ("/tmp/out3-C12", ["C12"], "C12 gained volumes where all pixels but a handful (< 1 %) share one cost curve (1st and 99th percentiles of the ambiguity coincide)",
+         "ambiguity normalisation tests 'constant map' before the percentile clip instead of after", "normalised ambiguity + map whose 1st/99th percentiles coincide but which is not constant (>= 101 pixels)"),
+ "C13": ("/tmp/out3-C13", ["C13", "C07"], "", "mismatch/occlusion classification rounds the absolute column index + dR", "half-integer right disparity + crop starting at an odd column"),
+ "C14": ("/tmp/out3-C14", ["C14"], "", "sgm filling swaps the flag bits with one XOR (clears an already set 'filled' bit)", "sgm + pixel flagged 8/9 that already carries the filled bit (two validation steps)"),
+ "C15": ("/tmp/out3-C15", ["C15", "C08"], "C15 compares the level images the steps worked on with the levels the exchanged pair gives (each image's levels depend on that image alone)",
+         "prepare_pyramid builds the right mask pyramid from the left mask", "multiscale + left/right masks that differ"),
+ "C16": ("/tmp/out3-C16", ["C16"], "", "add_mask reads the mask with out_dtype uint8 (GDAL saturates negatives to 0)", "signed mask raster with negative values"),
+ "C17": ("/tmp/out3-C17", ["C17"], "C17 gained disparity grid files that declare a nodata value (well-formed ones, and min > max exactly on samples equal to that value, left and right)",
+         "grid min <= max check reads masked arrays", "grid file with a nodata tag + inversion on samples equal to the tag"),
+ "C18": ("/tmp/out3-C18", ["C18"], "", "cbca masks the right image in place (no copy)", "cbca + right-role image with invalid mask pixels"),
+ "C19": ("/tmp/out3-C19", ["C19"], "C19 gained a save_results workload on synthetic products of 19 heights/widths around the usual strip sizes (127..513) and tall CLI cases (128/129/257 rows)",
+         "confidence bands written in strips of 128 rows with range(0, row - 1, 128)", "confidence measure + image height 128k + 1"),
+ "C20": ("/tmp/out3-C20", ["C20", "C05"], "C20 expectations now come from the user's pipeline completed with the documented defaults (not from the configuration the code stored), and margin-bearing parameters are left out in a quarter of the draws",
+         "bilateral check_conf updates a class-level defaults dict in place", "bilateral filter without sigma_space checked after another one with an explicit sigma_space in the same process"),
+}
+ROUND3B = {}
 def main():
     table = json.load(open(sys.argv[1])) if len(sys.argv) > 1 else None
-    items = [(pid, 1, v) for pid, v in ROUND1.items()] + [(pid, 2, v) for pid, v in ROUND2.items()]
+    items = [(pid, 1, v) for pid, v in ROUND1.items()] + [(pid, 2, v) for pid, v in ROUND2.items()] + [(pid, 3, v) for pid, v in ROUND3.items()]
+    items += [(pid, "3b", v) for pid, v in ROUND3B.items()]
     for pid, rnd, (src, caught, strengthened, what, needs) in items:
         name = f"{pid}-{rnd}"
         dst = os.path.join(V, "seeded", name)
@@ -81,7 +116,7 @@ def main():
         if os.path.exists(vf):
             ver = json.load(open(vf))
         meta = {
-            "property": pid, "name": name, "origin": "independent sub-agent given only the property text and a scratch worktree" + (" (second round: also shown the first-round patch, to avoid repeating it)" if rnd == 2 else ""),
+            "property": pid, "name": name, "origin": "independent sub-agent given only the property text and a scratch worktree" + (" (second round: also shown the first-round patch, to avoid repeating it)" if rnd == 2 else "") + (" (third round: shown the two earlier patches, asked for another mechanism: step interactions, state between calls, copy/view, dtype, coordinates)" if str(rnd).startswith("3") else ""),
             "change": what, "needs_to_manifest": needs,
             "confirmed_by_me": {
                 "patch_applies_to_repo_HEAD": ver.get("patch_applies_to_HEAD"),
